@@ -44,6 +44,7 @@ func Stats(logFileName, dbFileName string, sc StatsConfig) error {
 	var err error
 	var firstLogDate time.Time
 	var lastLogDate time.Time
+	haveFirstLogDate := false
 
 	countLog := 0
 	if err = parser.ParseFileCallback(logFileName, sc.ParserConfig, func(n *shared.ParserNode, parseErr error) (stop bool, cbError error) {
@@ -52,8 +53,9 @@ func Stats(logFileName, dbFileName string, sc StatsConfig) error {
 		}
 		lastLogDate, err = time.Parse(sc.ReporterConfig.DateFormat, n.Header)
 		if err == nil {
-			if firstLogDate.IsZero() {
+			if !haveFirstLogDate {
 				firstLogDate = lastLogDate
+				haveFirstLogDate = true
 			}
 		}
 		countLog++
